@@ -53,7 +53,7 @@ fn print_sheet(r: &mut R, sheet: &[SRule], variant: Option<u64>) -> String {
     let v = variant.unwrap_or(0);
     let ws = |r: &mut R, s: &mut String| match v {
         2 => s.push_str(r.pick(&[" ", "\n  ", "\t", "  "])),
-        3 => s.push_str(r.pick(&["/* c */", " /**/ ", "/* } { ; */"])),
+        3 => s.push_str(r.pick(&["/* c */", " /**/ ", "/* } { ; */", "/***/", "/* x **/", "/****/", "/** doc */", "/* a * b */", "/*/ */", "/* *** */"])),
         _ => {}
     };
     for rule in sheet {
